@@ -12,7 +12,7 @@ from . import common as C
 from . import search as S
 
 THEOREMS = ["Vore.C17_tree", "Vore.C17_replacement_key", "Vore.C17_members", "Vore.C17_wellformed",
-            "Vore.C17_put_wf", "Vore.C17_documents", "Vore.C17_documents_exact"]
+            "Vore.C17_put_wf", "Vore.C17_engine_results_wellformed", "Vore.C17_documents", "Vore.C17_documents_exact"]
 
 
 def unhex_text(h):
@@ -160,7 +160,9 @@ PROPS = {
                  "back to exactly the in-memory list (C17_tree); the member set of a match object is exactly the "
                  "documented one and `replacement` is present iff the match has a replacement (C17_members, "
                  "C17_replacement_key); every object has pairwise distinct member names provided the variable maps "
-                 "do, which ValueHashMap.Add (VMap.put) preserves (C17_wellformed, C17_put_wf); Json() and "
+                 "do, which ValueHashMap.Add (VMap.put) preserves (C17_wellformed, C17_put_wf) and which the model "
+                 "engine guarantees for every match it returns, for every instruction list, text and fuel "
+                 "(C17_engine_results_wellformed: an invariant of every VM instruction and saved state); Json() and "
                  "FormattedJson() are two printers applied to the same tree, so for ANY printer/reader pair "
                  "satisfying the stated contract of encoding/json both outputs parse to the same document, which "
                  "decodes to the in-memory matches with strings coerced to valid UTF-8, exactly when nothing "
@@ -171,9 +173,9 @@ PROPS = {
             note="Not proved: encoding/json itself (escaping, key order, indentation, U+FFFD substitution for invalid "
                  "UTF-8, number printing) — it is the assumption Codec.Faithful and is only exercised on the "
                  "generated texts (quotes, backslashes, control characters, HTML characters, non-ASCII valid "
-                 "UTF-8, invalid bytes). That the VM only builds variable maps with Add is by inspection of "
-                 "searchengine.go (the Lean VM model uses VMap.put only) — the invariant is proved for put, not "
-                 "as a whole-VM theorem. Filenames in the correspondence are the constant \"text\" of Run; "
+                 "UTF-8, invalid bytes). The distinct-keys invariant is proved for the Lean VM model "
+                 "(Vore/Model/VM.lean, tied to searchengine.go by the C01/C03 correspondence), a Go map has it "
+                 "by construction. Filenames in the correspondence are the constant \"text\" of Run; "
                  "RunFiles paths are exercised by C18.",
             technique="Lean 4 theorem over a JSON tree model (structural induction) + differential correspondence "
                       "through the real Matches.Json()/FormattedJson() and encoding/json"),
